@@ -174,7 +174,7 @@ def shrink(spec, case, outdir):
 def run(spec, tier, seed, replay_path=None):
     t0 = time.time()
     pid = spec.id
-    rundir = os.path.join(C.BUILD, "run", pid)
+    rundir = os.path.join(C.BUILD, "run", "%s-%d" % (pid, os.getpid()))  # private to this process: concurrent runs do not clobber each other
     ctx = {"spec": spec, "tier": tier, "seed": seed, "coverage": {}, "concrete": [], "broken": []}
 
     # ---- replay mode: re-run the recorded cases only
@@ -278,7 +278,7 @@ def run(spec, tier, seed, replay_path=None):
     if ctx["broken"] and not ctx["concrete"] and spec.harness and ex is not None and "build_error" not in ex:
         # (a) every mismatching case is a candidate: does the implementation violate the property there? (already judged by oracle)
         # (b) thorough-budget runs over derived seeds
-        for k in range(3):
+        for k in range(3 if tier == "thorough" else 1):
             ex2 = execute(spec, rundir + "-deep", "thorough", seed * 1000 + k + 1, corpus=False)
             if "build_error" in ex2:
                 break
@@ -364,6 +364,10 @@ def run(spec, tier, seed, replay_path=None):
     if "leanchecker" in l1:
         cov["leanchecker_rc"] = l1["leanchecker"]["rc"]
     C.write_evidence(pid, tier, seed, cov, time.time() - t0, violations, spec.assumptions)
+    if os.environ.get("VERIF_KEEP") != "1":
+        import shutil
+        shutil.rmtree(rundir, ignore_errors=True)
+        shutil.rmtree(rundir + "-deep", ignore_errors=True)
     if violations == 0:
         print("OK property=%s tier=%s obligations=%d/%d correspondence=%d lines, 0 mismatches, oracle failures=0%s" % (
             pid, tier, l1["discharged"], l1["obligations"], n, " (known findings: %d)" % len(known_hit) if known_hit else ""))
